@@ -55,6 +55,8 @@ SCENARIOS = {
     "ccs-compat": ["F:c2s", "Q:s2c:head:140303000101", "F:s2c", "Q:c2s:head:140303000101", "F:c2s", "F:s2c", "app c 68656c6c6f", "F:c2s", "app s 616263", "F:s2c"],
     # TLS False Start (TLS <= 1.2): the client sends application data right behind its Finished, before the server's Finished
     "falsestart": ["F:c2s", "F:s2c", "seths c 255", "app c 474554202f", "app c 0d0a", "seths c 20", "F:c2s", "F:s2c", "F:c2s", "app s 616263", "F:s2c"],
+    # TLS 1.3 0-RTT from a middlebox-compatibility client: ClientHello | ChangeCipherSpec | early data (ticket resumption, early data accepted)
+    "early+ccs": ["app c " + "65" * 100, "Q:c2s:1:140303000101", "F:c2s", "F:s2c", "F:c2s", "F:s2c", "app c 68656c6c6f", "F:c2s", "app s 616263", "F:s2c"],
     "bigdata": ["F:c2s", "F:s2c", "F:c2s", "F:s2c", "F:c2s", "app c " + "5a" * 3000, "app c " + "a5" * 17, "F:c2s", "app s " + "11" * 5000, "app s 22", "F:s2c"],
 }
 MODES_QUICK = [("all", ""), ("bytes", "1"), ("bytes", "7"), ("list", "5,1,300,2,64"), ("bytes", "1000")]
@@ -74,15 +76,17 @@ def chunk_sizes(mode, arg, total):
     return out
 
 
-def build_script(cfg, seed, steps, deliver, sendchunk=0, resumed=False):
+def build_script(cfg, seed, steps, deliver, sendchunk=0, resumed=False, rbmode=0, early=False):
     s = ""
     if resumed:
-        s = "new %s seed=%d ticket=1 ; hs ; " % (cfg, seed)
-        s += "new %s seed=%d resume=1 ticket=1 keepkeys=1" % (cfg, seed + 100)
+        s = "new %s seed=%d ticket=1%s ; hs ; " % (cfg, seed, " smaxed=5000" if early else "")
+        s += "new %s seed=%d resume=1 ticket=1 keepkeys=1%s" % (cfg, seed + 100, " smaxed=5000" if early else "")
     else:
         s = "new %s seed=%d" % (cfg, seed)
     if sendchunk:
         s += " ; sendchunk %d" % sendchunk
+    if rbmode:
+        s += " ; rbmode 1"      # receive chunks through matrixSslGetReadbufOfSize(chunk) instead of matrixSslGetReadbuf
     for st in steps:
         if st.startswith("F:"):
             s += " ; " + deliver(st[2:])
@@ -116,13 +120,20 @@ def run(ck):
                 continue
             if sname == "falsestart" and ("cv=4" in cfg or "cv=3,4" in cfg):
                 continue
-            for resumed in ((False, True) if sname == "full+data" and "cauth" not in cname else (False,)):
+            early = sname.startswith("early")
+            if early and cname != "tls13":
+                continue
+            for resumed in ((True,) if early else ((False, True) if sname == "full+data" and "cauth" not in cname else (False,))):
                 key = (cname, sname, resumed)
-                runs.append((key, "canon", None, build_script(cfg, ck.seed, steps, lambda d: "step %s 99" % d, resumed=resumed)))
+                runs.append((key, "canon", None, build_script(cfg, ck.seed, steps, lambda d: "step %s 99" % d, resumed=resumed, early=early)))
                 for (m, a) in modes:
-                    runs.append((key, "chunk", (m, a), build_script(cfg, ck.seed, steps, lambda d, m=m, a=a: ("flight %s %s %s" % (d, m, a)).strip(), resumed=resumed)))
+                    runs.append((key, "chunk", (m, a), build_script(cfg, ck.seed, steps, lambda d, m=m, a=a: ("flight %s %s %s" % (d, m, a)).strip(), resumed=resumed, early=early)))
+                # the other way of asking for room: matrixSslGetReadbufOfSize(n) with chunks larger than the free room while a partial record is buffered
+                if sname in ("bigdata", "full+data", "early+ccs"):
+                    for (m, a) in (("all", ""), ("bytes", "2000"), ("list", "1000,3500,9000"), ("list", "300,16000"), ("bytes", "1"), ("list", "5,4000")):
+                        runs.append((key, "ofsize", (m, a), build_script(cfg, ck.seed, steps, lambda d, m=m, a=a: ("flight %s %s %s" % (d, m, a)).strip(), resumed=resumed, rbmode=1, early=early)))
                 for sc in ((1, 13) if ck.tier == "quick" else (1, 2, 13, 100, 1500)):
-                    runs.append((key, "send", sc, build_script(cfg, ck.seed, steps, lambda d: "flight %s all" % d, sendchunk=sc, resumed=resumed)))
+                    runs.append((key, "send", sc, build_script(cfg, ck.seed, steps, lambda d: "flight %s all" % d, sendchunk=sc, resumed=resumed, early=early)))
     rc, outs, err = ck.run_lines(h, [r[3] for r in runs], timeout=3000)
     if len(outs) != len(runs):
         ck.log("h_sess line count mismatch %d vs %d: %s" % (len(outs), len(runs), err[-300:]))
@@ -196,7 +207,9 @@ def run(ck):
                     ents.append("1:0:%d" % TAGS["ERR"]); break
             flight_tabs[ci] = ents
         for kind, mode, script, out in lst:
-            if kind != "chunk":
+            if kind != "chunk" or key[1].startswith("early"):
+                # 0-RTT data is pipelined behind the ClientHello, whose answer is reported after the buffered early data has been
+                # delivered: outside the theorem's stream_ok hypothesis (see ck.trusted); the metamorphic oracle above still applies
                 continue
             segs = out.split(" | "); cmds = script.split(" ; ")
             for ci, (c, sg) in enumerate(zip(cmds, segs)):
